@@ -52,6 +52,7 @@ type c06Msg struct {
 	EK     []string
 	Unprot map[string]any
 	RHdr   []map[string]any
+	Empty  map[string]bool // members emitted as the empty string ("protected": "", "aad": "")
 }
 
 func c06FromParsed(p *jweParsed, ser string, flat bool) *c06Msg {
@@ -71,7 +72,7 @@ func (m *c06Msg) render() []byte {
 	}
 	o := map[string]any{"ciphertext": m.Text["ciphertext"]}
 	for _, k := range []string{"protected", "iv", "tag", "aad"} {
-		if m.Text[k] != "" {
+		if m.Text[k] != "" || m.Empty[k] {
 			o[k] = m.Text[k]
 		}
 	}
@@ -130,7 +131,14 @@ func (m *c06Msg) authenticated() string {
 		}
 		return string(b)
 	}
-	return strings.Join([]string{m.Text["protected"], m.Text["aad"], dec(m.Text["iv"]), dec(m.Text["ciphertext"]), dec(m.Text["tag"])}, "\x00|")
+	// the Additional Authenticated Data of RFC 7516 §5.1 step 14: ASCII(protected) or ASCII(protected || '.' || aad);
+	// with an EMPTY protected header and a JWE AAD that is '.' || aad.  ('.' is not a base64url character, so the pair
+	// (protected, aad) is recoverable from it.)
+	aad := m.Text["protected"]
+	if m.Text["aad"] != "" {
+		aad += "." + m.Text["aad"]
+	}
+	return strings.Join([]string{aad, dec(m.Text["iv"]), dec(m.Text["ciphertext"]), dec(m.Text["tag"])}, "\x00|")
 }
 
 func copyMap(m map[string]any) map[string]any {
@@ -145,7 +153,7 @@ func copyMap(m map[string]any) map[string]any {
 }
 
 func (m *c06Msg) clone() *c06Msg {
-	n := &c06Msg{JSON: m.JSON, Flat: m.Flat, Text: map[string]string{}, EK: append([]string{}, m.EK...), Unprot: copyMap(m.Unprot)}
+	n := &c06Msg{JSON: m.JSON, Flat: m.Flat, Text: map[string]string{}, EK: append([]string{}, m.EK...), Unprot: copyMap(m.Unprot), Empty: map[string]bool{}}
 	for k, v := range m.Text {
 		n.Text[k] = v
 	}
@@ -261,6 +269,127 @@ func applyMutation(cs c06Case, m *c06Msg, t int, r *vf.Rand, other *c06Msg, othe
 			s += "="
 		}
 		m.setSeg(cs.Seg, t, s)
+	case "place":
+		// header-placement transformations: the parameters keep their values but leave (or enter) the authenticated position
+		prot := map[string]any{}
+		if m.Text["protected"] != "" {
+			raw, _ := jb64.DecodeString(m.Text["protected"])
+			prot, _ = jDecodeObj(raw)
+			if prot == nil {
+				return false
+			}
+		}
+		if m.Empty == nil {
+			m.Empty = map[string]bool{}
+		}
+		toJSON := func() {
+			if !m.JSON {
+				m.JSON, m.Flat = true, cs.Val%2 == 0
+			}
+		}
+		moveAll := func(dst *map[string]any) bool {
+			if *dst == nil {
+				*dst = map[string]any{}
+			}
+			for k, v := range prot {
+				if _, dup := (*dst)[k]; dup {
+					return false
+				}
+				(*dst)[k] = v
+			}
+			return true
+		}
+		edit := func(dst map[string]any) { // the moved parameters are no longer protected: change some
+			dst["kid"] = "edited-" + fmt.Sprint(cs.Val)
+			dst["cty"] = "text/edited"
+		}
+		switch cs.Op {
+		case "all-to-unprotected", "both-absent", "empty-protected":
+			if len(prot) == 0 {
+				return false
+			}
+			toJSON()
+			if !moveAll(&m.Unprot) {
+				return false
+			}
+			m.Text["protected"] = ""
+			m.Empty["protected"] = cs.Op == "empty-protected"
+			if cs.Op == "both-absent" {
+				m.Text["aad"] = ""
+			}
+		case "all-to-recipient":
+			if len(prot) == 0 {
+				return false
+			}
+			toJSON()
+			if !moveAll(&m.RHdr[t]) {
+				return false
+			}
+			m.Text["protected"] = ""
+		case "some-to-unprotected":
+			if len(prot) < 2 {
+				return false
+			}
+			toJSON()
+			if m.Unprot == nil {
+				m.Unprot = map[string]any{}
+			}
+			keys := sortedKeys(prot)
+			moved := 0
+			for i, k := range keys {
+				if (cs.Val>>uint(i))&1 == 1 || (moved == 0 && i == len(keys)-1) {
+					if _, dup := m.Unprot[k]; dup {
+						return false
+					}
+					m.Unprot[k] = prot[k]
+					delete(prot, k)
+					moved++
+				}
+			}
+			if len(prot) == 0 {
+				m.Text["protected"] = ""
+			} else {
+				m.Text["protected"] = jEnc(jMarshal(prot))
+			}
+		case "prot-into-aad", "prot-into-aad-edit":
+			// the protected text becomes the "aad" member, the parameters go to the unprotected header
+			if len(prot) == 0 || m.Text["aad"] != "" {
+				return false
+			}
+			toJSON()
+			if !moveAll(&m.Unprot) {
+				return false
+			}
+			m.Text["aad"], m.Text["protected"] = m.Text["protected"], ""
+			if cs.Op == "prot-into-aad-edit" {
+				edit(m.Unprot)
+			}
+		case "aad-into-prot":
+			if m.Text["aad"] == "" || m.Text["protected"] != "" {
+				return false
+			}
+			m.Text["protected"], m.Text["aad"] = m.Text["aad"], ""
+		case "swap-prot-aad":
+			if m.Text["aad"] == "" || m.Text["protected"] == "" {
+				return false
+			}
+			toJSON()
+			if !moveAll(&m.Unprot) {
+				return false
+			}
+			m.Text["protected"], m.Text["aad"] = m.Text["aad"], m.Text["protected"]
+		case "empty-aad":
+			if !m.JSON {
+				toJSON()
+			}
+			m.Text["aad"] = ""
+			m.Empty["aad"] = true
+		default:
+			return false
+		}
+		if len(m.Unprot) == 0 {
+			m.Unprot = nil
+		}
 	case "hdr":
 		val := c06ParamValue(cs.Param, r, base.Enc, base.Alg, otherKey)
 		var target *map[string]any
@@ -407,6 +536,9 @@ func execC06(c *vf.Ctx, d *vf.Driver, cs c06Case) {
 		c.Count("mutation-not-applicable")
 		return
 	}
+	if m.JSON && ser == "compact" {
+		ser = "json" // a placement transformation turned the compact message into a JSON one
+	}
 	mdata := m.render()
 	key := fmt.Sprintf("%x", mdata) + e.finder.KeyID
 	c.Count("mut/" + cs.Mut)
@@ -415,6 +547,9 @@ func execC06(c *vf.Ctx, d *vf.Driver, cs c06Case) {
 	}
 	if cs.Mut == "hdr" {
 		c.Count("hdr/" + cs.Where + "/" + cs.Op + "/" + cs.Param)
+	}
+	if cs.Mut == "place" {
+		c.Count("place/" + cs.Op)
 	}
 	c.Count("base/" + base.Alg)
 	c.Count("base-enc/" + base.Enc)
@@ -1190,7 +1325,6 @@ func genC06Base(r *vf.Rand) c05Case {
 	if mode == "goat" && b.sharedAlg() && (c05Family(alg) == "gcmkw" || c05Family(alg) == "pbes2") {
 		b.Variant &^= 1
 	}
-	b.NoProt = false
 	return b
 }
 
@@ -1217,8 +1351,17 @@ func genC06(r *vf.Rand, base c05Case) c06Case {
 	case 11:
 		cs.Mut = "key"
 	}
+	if r.Intn(8) == 0 {
+		cs = c06Case{Base: base, Seed2: cs.Seed2, Val: r.Intn(1 << 16), Mut: "place", Op: vf.Pick(r, c06PlaceOps)}
+	}
 	return cs
 }
+
+var c06PlaceOps = []string{"all-to-unprotected", "all-to-recipient", "some-to-unprotected", "prot-into-aad", "prot-into-aad-edit",
+	"aad-into-prot", "swap-prot-aad", "empty-protected", "empty-aad", "both-absent"}
+
+// c06PlaceAlgs: key management whose CEK does not depend on the header (so a moved header still yields the CEK).
+var c06PlaceAlgs = []string{"dir", "A128KW", "A192KW", "A256KW", "RSA-OAEP", "RSA1_5"}
 
 var c06Prims = []string{"A128CBC-HS256", "A192CBC-HS384", "A256CBC-HS512", "A128GCM", "A192GCM", "A256GCM",
 	"A128KW", "A192KW", "A256KW", "A128GCMKW", "A192GCMKW", "A256GCMKW", "PBES2-HS256+A128KW", "PBES2-HS384+A192KW", "PBES2-HS512+A256KW"}
@@ -1313,6 +1456,29 @@ func runC06(c *vf.Ctx) {
 		}
 		for i := 0; i < c.Budget(40, 400); i++ {
 			execC06(c, d, c06Case{Prim: vf.Pick(r, c06Prims), Seed2: r.U64()})
+		}
+		// placement stream: every placement transformation of valid messages whose CEK does not depend on the header,
+		// every content encryption, compact / JSON / flattened bases, with and without protected header and JWE AAD
+		for i := 0; i < c.Budget(3, 20); i++ {
+			for _, op := range c06PlaceOps {
+				mode := "indep"
+				if r.Intn(4) == 0 {
+					mode = "goat"
+				}
+				ser := vf.Pick(r, []string{"compact", "json", "flat"})
+				if mode == "goat" && ser == "flat" {
+					ser = "json"
+				}
+				base := genC05(r, mode, vf.Pick(r, c06PlaceAlgs), vf.Pick(r, c05Encs), false, ser, vf.Pick(r, []string{"one", "plus1", "aligned16"}))
+				if (op == "aad-into-prot" || op == "swap-prot-aad" || op == "empty-aad") && mode == "indep" && ser != "compact" && base.AAD == "" {
+					base.AAD = "0102030405" // these transformations need a base with a JWE AAD
+				}
+				if op == "aad-into-prot" && mode == "indep" && ser != "compact" {
+					base.Placement, base.NoProt = "unprotected", true
+				}
+				execC06(c, d, c06Case{Base: base, Mut: "none"})
+				execC06(c, d, c06Case{Base: base, Mut: "place", Op: op, Val: r.Intn(1 << 16), Seed2: r.U64()})
+			}
 		}
 		// reuse stream: parse from a sub-slice of a read buffer, the caller reuses the buffer, then Decrypt / Compact / MarshalJSON
 		for i := 0; i < c.Budget(6, 40); i++ {
